@@ -49,7 +49,7 @@ inline void RefEncode(const Sch& s, const Val& v, Enc& e){
     case K::TAB: { e.prefix(0xb5); e.put_uint(s.hash,Role::HASH,64); uint64_t n=0; for(size_t i=0;i<s.kids.size();i++) if(s.active[i]&&v.kids[i].u) n++; size_t cfi=e.fields.size(); e.put_uint(n,Role::COUNT,64);
       for(size_t i=0;i<s.kids.size();i++) if(s.active[i]&&v.kids[i].u){ size_t ido=e.out.size(); e.put_uint(s.ids[i],Role::ID,64); size_t sz=RefSizeUpper(s.kids[i],v.kids[i].kids[0]); size_t szo=e.out.size(); e.put_uint(sz,Role::SIZE,64); size_t o=e.out.size();
         e.tab_depth++; RefEncode(s.kids[i],v.kids[i].kids[0],e); e.tab_depth--; size_t used=e.out.size()-o; if(used<sz){ e.fields.push_back({e.out.size(),sz-used,Role::PADDING,0,false}); e.out.insert(e.out.end(),sz-used,0);}
-        e.entries.push_back({ido,szo,o,e.out.size(),e.tab_depth,s.ids[i],cfi}); } } break;
+        e.entries.push_back({ido,szo,o,e.out.size(),e.tab_depth+1,s.ids[i],cfi}); } } break;
   }
 }
 inline size_t usz(uint64_t v){ return v<128?1:v<256?2:v<65536?3:v<(1ull<<32)?5:9; }
